@@ -119,9 +119,59 @@ fn drive(src: &str, fails: &mut Vec<(String, String)>) {
     }
 }
 
+// checkpoint()/restore() as the parser's speculative parses use them: look ahead `ahead` tokens from
+// every token boundary, rewind, and the token stream (kinds and spans) must be the one of a straight run
+fn spans_straight(src: &str) -> Vec<(String, Span)> {
+    let mut dict = StringDict::new();
+    let mut lx = Lexer::new(src, &mut dict);
+    let mut out = Vec::new();
+    for _ in 0..64 {
+        let t = lx.next_token();
+        let eof = matches!(t.kind, TokenKind::Eof);
+        out.push((format!("{:?}", t.kind), t.span));
+        if eof {
+            break;
+        }
+    }
+    out
+}
+
+fn drive_backtracking(src: &str, ahead: usize, fails: &mut Vec<(String, String)>) {
+    let want = spans_straight(src);
+    let mut dict = StringDict::new();
+    let mut lx = Lexer::new(src, &mut dict);
+    let mut got = Vec::new();
+    for _ in 0..64 {
+        let cp = lx.checkpoint();
+        let nl = lx.had_newline_before();
+        for _ in 0..ahead {
+            let _ = lx.next_token();
+        }
+        lx.restore(cp);
+        if lx.had_newline_before() != nl {
+            fails.push(("lexer_spans/Lexer::restore/ensures#token_stream_unchanged_by_lookahead".to_string(),
+                        format!("src={:?} newline flag not restored at token {}", src, got.len())));
+            return;
+        }
+        let t = lx.next_token();
+        let eof = matches!(t.kind, TokenKind::Eof);
+        got.push((format!("{:?}", t.kind), t.span));
+        if eof {
+            break;
+        }
+    }
+    if got != want {
+        let i = got.iter().zip(want.iter()).position(|(a, b)| a != b).unwrap_or(got.len().min(want.len()));
+        fails.push(("lexer_spans/Lexer::restore/ensures#token_stream_unchanged_by_lookahead".to_string(),
+                    format!("src={:?} lookahead {} then restore: token {} is {:?}, straight run gives {:?}", src, ahead, i, got.get(i), want.get(i))));
+    }
+}
+
 fn enumerate(len: usize, cur: &mut String, cases: &mut usize, fails: &mut Vec<(String, String)>) {
     drive(cur, fails);
-    *cases += 1;
+    drive_backtracking(cur, 1, fails);
+    drive_backtracking(cur, 2, fails);
+    *cases += 3;
     if len == 0 || fails.len() > 40 {
         return;
     }
@@ -152,7 +202,8 @@ fn verif_oracle_lexer_spans() {
             let src = format!("{}{}", pad, s);
             drive(&src, &mut fails);
             drive(&src.replace('\n', "\r\n"), &mut fails);
-            cases += 2;
+            drive_backtracking(&src, 3, &mut fails);
+            cases += 3;
         }
     }
     let mut seen = std::collections::BTreeSet::new();
